@@ -575,6 +575,11 @@ class Layout(object):
                 else:
                     lines.append('')
                 labels.append(('text', si))
+                if rng.random() < 0.2:
+                    # two empty lines in a row (inside a google block the examples behind them still belong to it)
+                    lines.append('')
+                    labels.append(('text', si))
+                    features.add('two-empty-lines-separator')
             separated = si < len(stmts) - 1 and sep < self.prose_prob + self.blank_prob
             if self.reindent_prob and (wl is not None or separated) and rng.random() < self.reindent_prob:
                 # the next example is written at another indentation: directly under the want
